@@ -5,7 +5,7 @@ N=$1; P=$2; PATCHF=$3; shift 3; W=/tmp/try2-$N
 git -C /repo worktree remove --force $W 2>/dev/null
 git -C /repo worktree add --detach $W HEAD >/dev/null 2>&1 || exit 2
 (cd $W && git apply $PATCHF) || { echo "$N $P PATCH-DOES-NOT-APPLY"; git -C /repo worktree remove --force $W; exit 2; }
-cd /var/tmp/vclone && git checkout -q -- . && git pull -q
+cd ${CLONE:-/var/tmp/vclone} && git checkout -q -- . && git pull -q
 for sd in "$@"; do
   VERIF_SEED=$sd VERIF_REPO=$W timeout 2400 ./check $P > /verif/wip/seeds/t2-$N-$P-$sd.out 2>&1; rc=$?
   v=$(grep -c "^VIOLATION" /verif/wip/seeds/t2-$N-$P-$sd.out); nf=$(grep -c "no-failing-input-found" /verif/wip/seeds/t2-$N-$P-$sd.out)
